@@ -50,14 +50,15 @@ var c19Pool = []string{
 	`$.d.datetime()`, `$.d.date()`, `$.tm.time()`, `$.tmz.time_tz()`, `$.ts.timestamp()`, `$.tsz.timestamp_tz()`, `$.tsz.timestamp(2).string()`, `$.ts.timestamp_tz()`, `$.d.datetime() < $.tsz.datetime()`, `$.tmz.time()`,
 	`$v`, `$arr[*]`, `$obj.b[last]`, `$.i == $v`, `$arr[2].a + $v`, `$.s starts with $w`, `$missing`, `$.a[$missing]`, `"lit"`, `(1 + 2) * 3`, `null.type()`, `true`,
 	`strict $.a`, `strict $.nokey`, `strict $.a[5]`, `strict $.list[*].x`, `strict $.list[*] ? (@.x > 1)`, `strict exists($.a)`, `strict $.a.size() == 3`, `strict -$.s`, `strict $.a[0 to last].type()`,
+	`$.aa[0 to 1][*]`, `$.aa[0,2][*]`, `$.aa[0,1][*]`, `$.aa[2,0][*]`, `$.aa[*][*]`, `$.aa[*][0 to last]`, `$.aa[last][*]`, `$.aa[0,1,0][*]`, `$.**[*]`, `$.aa[*] ? (@.size() > 1)[*]`,
 	`$.i == 1`, `$.a[*] > 1`, `exists($.a ? (@ > 2))`, `($.i == "x") is unknown`, `$.i == 1 && $.f > 1`, `!($.s == "x")`, `$.x.y.z`, `$.a.b.c`, `$.a[*].foo`, `$.list[1 to last].x`, `$.list[*].t.date().string()`,
 }
 
 var c19Docs = []string{
-	`{"a":[1,2,3],"i":1,"f":1.5,"n":"12","s":"abc1","o":{"b":2},"bools":["t",0],"list":[{"x":1,"y":"ab","t":"2023-08-15"},{"x":2,"y":"Abc","t":"2023-08-17"},{"x":"a","y":"b","z":1,"t":"2023-08-15"}],"d":"2023-08-15","tm":"12:34:56","tmz":"12:34:56+01:00","ts":"2023-08-15T12:34:56","tsz":"2023-08-15T12:34:56.789+01:00"}`,
+	`{"a":[1,2,3],"aa":[[1,2,3],[4],[5],[6,7]],"i":1,"f":1.5,"n":"12","s":"abc1","o":{"b":2},"bools":["t",0],"list":[{"x":1,"y":"ab","t":"2023-08-15"},{"x":2,"y":"Abc","t":"2023-08-17"},{"x":"a","y":"b","z":1,"t":"2023-08-15"}],"d":"2023-08-15","tm":"12:34:56","tmz":"12:34:56+01:00","ts":"2023-08-15T12:34:56","tsz":"2023-08-15T12:34:56.789+01:00"}`,
 	`{"a":[],"i":0,"f":-0.5,"n":"x","s":"","o":{},"bools":[],"list":[],"d":"bad","tm":"","tmz":"","ts":"","tsz":""}`,
 	`[1,[2,[3,[4]]],{"b":{"b":1}}]`, `null`, `"just a string"`, `42`, `{"a":{"b":{"c":1}},"i":[0],"x":{"y":{"z":[1,2]}}}`,
-	`{"a":[3,2,1],"i":2,"f":1e10,"n":"2147483648","s":"ab\nc","o":{"b":2},"bools":["yes","no",1],"list":[{"x":5,"y":"a.c"}],"d":"2024-02-29","tm":"23:59:59.999","tmz":"00:00:00Z","ts":"2024-02-29 23:59:59","tsz":"2024-02-29T23:59:59-08:00"}`,
+	`{"a":[3,2,1],"aa":[[],[7,8,9,10,11],[12]],"i":2,"f":1e10,"n":"2147483648","s":"ab\nc","o":{"b":2},"bools":["yes","no",1],"list":[{"x":5,"y":"a.c"}],"d":"2024-02-29","tm":"23:59:59.999","tmz":"00:00:00Z","ts":"2024-02-29 23:59:59","tsz":"2024-02-29T23:59:59-08:00"}`,
 	`[]`, `{}`, `[null,null]`, `{"a":[1,"x",null,[2]],"i":-1,"f":2.5,"n":"1.5","s":"ABC","o":{"b":"2"},"list":[{"x":2,"y":"abc"}]}`,
 }
 
@@ -319,6 +320,43 @@ func runC19(c *h.Ctx) {
 	c.Sample("config", map[string]any{"goroutines": cf.n, "calls-per-goroutine": cf.m, "GOMAXPROCS": cf.procs, "yield-every-steps": cf.yield, "rounds": rounds})
 	c.Sample("operation", map[string]any{"path": c19Pool[21], "doc#": 0, "entry": "query", "baseline": baseline[c19Input{21, 0, "query", false, false}.key()]})
 
+	// results stay what they were: hold the items returned by one call, run other
+	// queries over the same documents, then look at the held items again
+	{
+		freshH, _ := parsePool()
+		type held struct {
+			in    c19Input
+			items []any
+			fp    string
+		}
+		var hs []held
+		for pi := range c19Pool {
+			for _, di := range []int{0, 7} {
+				o := h.Call("query", freshH[pi], docs[di], h.Opts{Vars: vars, TZ: true, Zone: c19Zone})
+				c.Eval(1)
+				if o.Class == h.OK && len(o.Items) > 0 {
+					hs = append(hs, held{c19Input{pi, di, "query", false, true}, o.Items, h.CanonList(o.Items)})
+				}
+			}
+		}
+		for pi := range c19Pool {
+			for _, di := range []int{0, 7} {
+				h.Call("query", freshH[pi], docs[di], h.Opts{Vars: vars, TZ: true, Zone: c19Zone})
+				c.Eval(1)
+			}
+		}
+		for _, hd := range hs {
+			if h.CanonList(hd.items) != hd.fp {
+				c.Violate("repeat-differs", h.F("kind", "held-result-changed"), fmt.Sprintf("items returned by Query(%s) changed after later queries ran: were %s, now %s", c19Pool[hd.in.pi], hd.fp, h.CanonList(hd.items)),
+					h.Case{Kind: "held-result", Path: c19Pool[hd.in.pi], Doc: c19Docs[hd.in.di], Vars: c19Vars})
+			} else {
+				c.Held("repeat-differs")
+			}
+		}
+		if h.CanonTyped(docs) != docFP {
+			c.Violate("concurrent-differs", h.F("kind", "shared-input-modified"), "a shared document was modified by sequential queries", h.Case{Kind: "shared-input"})
+		}
+	}
 	// sequential order-independence: each path after 0..K other calls on the same *Path
 	r := c.Rand("c19-seq")
 	fresh, _ := parsePool()
